@@ -248,7 +248,7 @@ def run(pid, spec, a, seed, scratch, t0):
         job = next(j for j in spec["jobs"] if j["harness"] == cex["harness"])
         rr = native_replay(job, os.path.abspath(a.replay), scratch)
         print(json.dumps(rr))
-        if reproduced(cex, rr):
+        if reproduced(cex, rr) or (job.get("kind") == "asmsym" and (rr.get("fails") or rr.get("panic"))):
             print("VIOLATION property=%s replay=%s" % (pid, a.replay))
             return 1
         return 0
